@@ -60,6 +60,35 @@ def switched_off_cases():
     return out
 
 
+def own_port_passthrough_cases():
+    """A routine WITH children that also wires one of its own ports straight to another of its own ports (ctrl_in -> ctrl_out, no
+    child on either side), looked at in memory and as the exported document read back: the connection is there both ways."""
+    import exprs as E
+
+    def node(name, params=(), ports=(), conns=(), kids=(), links=(), res=()):
+        return {"name": name, "type": None, "input_params": list(params), "local_variables": [], "linked_params": [list(l) for l in links],
+                "ports": list(ports), "resources": list(res), "connections": [list(c) for c in conns], "repetition": None, "children": list(kids)}
+
+    def port(n, d, size):
+        return {"name": n, "direction": d, "size": size}
+    out = []
+    for depth in (1, 2):
+        for via in (False, True):
+            core = node("core", ports=[port("in_0", "input", E.sym("W")), port("out_0", "output", E.op("add", E.sym("W"), E.num(1)))],
+                        res=[{"name": "T", "type": "additive", "value": E.op("mul", E.num(2), E.sym("W"))}])
+            wrap = node("wrap", ports=[port("data_in", "input", E.sym("D")), port("ctrl_in", "input", E.sym("C")), port("data_out", "output", None), port("ctrl_out", "output", None)],
+                        conns=[["data_in", "core.in_0"], ["core.out_0", "data_out"], ["ctrl_in", "ctrl_out"]], kids=[core])
+            top = wrap
+            for _ in range(depth):
+                inner = top
+                top = node("root" if _ == depth - 1 else "mid", params=["N", "M"],
+                           ports=[port("data_in", "input", E.sym("N")), port("ctrl_in", "input", E.sym("M")), port("data_out", "output", None), port("ctrl_out", "output", None)],
+                           conns=[["data_in", inner["name"] + ".data_in"], ["ctrl_in", inner["name"] + ".ctrl_in"], [inner["name"] + ".data_out", "data_out"], [inner["name"] + ".ctrl_out", "ctrl_out"]],
+                           kids=[inner], links=([["N", [["mid", "N"]]], ["M", [["mid", "M"]]]] if inner["name"] == "mid" else []))
+            out.append({"routine": top, "expect_ok": True, "via_export": via})
+    return out
+
+
 def closed_form_zero_cases():
     """A closed-form sequence whose sum (or product) is the NUMBER 0, as text and as a native integer: a formula that is given,
     not one that is missing -- the repeated routine's resource is 0 and the hierarchy is compiled with its structure."""
@@ -84,7 +113,7 @@ def closed_form_zero_cases():
 def streams(tier, seed):
     rng = lib.Rng(f"C10-{seed}")
     n = 160 if tier == "quick" else 3000
-    cases = lib.load_corpus(PROP, "hier-compile") + interleaved_port_cases() + switched_off_cases() + closed_form_zero_cases() + c01.gen_cases(rng, n, 3 if tier == "quick" else 4)
+    cases = lib.load_corpus(PROP, "hier-compile") + interleaved_port_cases() + switched_off_cases() + closed_form_zero_cases() + own_port_passthrough_cases() + c01.gen_cases(rng, n, 3 if tier == "quick" else 4)
     # a third of the cases are compiled with derived resources named like resources of the hierarchy whose calculator
     # answers None ("not applicable") everywhere: the compiled hierarchy must be what it is without them
     import hier as H
